@@ -65,6 +65,10 @@ class Sched(object):
                 return t
         raise HarnessError('scheduling point reached from a thread the scheduler does not own')
 
+    def owns_current_thread(self):
+        ident = threading.get_ident()
+        return any(t.thread is not None and t.thread.ident == ident for t in self.threads)
+
     def point(self, label, cond=None, deadline=None):
         """Yield to the scheduler.  cond=None: stay runnable.  Otherwise block until cond() or the (virtual) deadline.
         Returns True when resumed because cond() held (or cond is None), False on timeout."""
@@ -250,7 +254,8 @@ class CoopLock(object):
 
     def acquire(self, blocking=True, timeout=-1):
         s = Sched.current
-        if s is None or s.aborting:
+        if s is None or s.aborting or not s.owns_current_thread():
+            # scenario set-up code running on the controller thread: nothing can contend yet
             self.held = True
             return True
         if not blocking:
@@ -415,6 +420,8 @@ class _EnvAdapter(object):
     net = None
 
     def select(self, r, w, x, timeout=None):
+        if any(s is not None and s.closed for s in r):
+            raise ValueError('file descriptor cannot be a negative integer (-1)')
         ready = [s for s in r if s is not None and s.readable()]
         if ready or not timeout:
             return ready, [], []
